@@ -104,7 +104,7 @@ func GenHistory(seed uint64, idx int, p Profile) History {
 	g := &genState{r: r, p: p, commits: map[int]*Msg{}, feeders: map[int]int{}, nftOwner: map[uint64]int{}, jailed: map[int]bool{}}
 	nv := 3 + r.Intn(3)
 	g.nVals = nv
-	gen := HGenesis{NAccts: nv + 5, Funds: 1000000, Nft: p.Internal, OracleFee: p.OracleFee}
+	gen := HGenesis{NAccts: nv + 5, Funds: 1000000, Nft: p.Internal, OracleFee: p.OracleFee, BigFunds: p.Adversarial && r.Chance(50)}
 	for i := 0; i < nv; i++ {
 		gen.Powers = append(gen.Powers, int64(1+r.Intn(5)))
 		pb := ""
@@ -319,6 +319,9 @@ func (g *genState) settlementMsg() *Msg {
 		}
 		if g.p.Adversarial && r.Chance(20) {
 			m.Amount = g.amount()
+		}
+		if g.h.Genesis.BigFunds && r.Chance(30) {
+			m.Amount = []string{"9223372036854775807", "9223372036854775808", "18446744073709551616", "340282366920938463463374607431768211456"}[r.Intn(4)]
 		}
 		return m
 	case k < 85:
